@@ -2,7 +2,7 @@
 # usage: seeded_take.sh <prop> <n> <props to check...> : take the delivery of a sub-agent worktree /tmp/wt-d-<prop>,
 # confirm it in a scratch worktree, drop the agent's worktree, run the given checks against it
 P=$1; N=$2; shift; shift
-S=/verif/seeded/$P-$N; W=/tmp/wt-d-$P
+S=/verif/seeded/$P-$N; W=/tmp/wt-${ROUND:-d}-$P
 mkdir -p $S
 if [ -d $W/deliver ]; then
   cp $W/deliver/patch.diff $S/; cp $W/deliver/notes.md $S/ 2>/dev/null
